@@ -627,7 +627,7 @@ func (c *Ctx) ruleSequential() {
 // never hold mutable containers that functions write to, and are not address-taken into longer-lived structures.
 func (c *Ctx) ruleGlobalState(rule string) {
 	r := c.R
-	r.Rule(rule, "every package-level variable of the library is written only by its initialiser/init(), or only inside a sync.Once.Do closure; none is a sync.Map/Pool/Mutex-guarded cache or a container that functions store into; none has its address taken", 10)
+	r.Rule(rule, "every package-level variable of the library is written only by its initialiser/init(), or only inside a sync.Once.Do closure; none is a sync.Map/Pool/Mutex-guarded cache or a container that functions store into; none has its address taken; a map, slice, pointer or channel among them is only read in place (indexed, ranged over, measured, compared, method receiver) or given to a parameter that is only read: it is never stored, sliced, returned or passed to something that writes through it", 10)
 	type gv struct {
 		v  *types.Var
 		pk *packages.Package
@@ -746,6 +746,11 @@ func (c *Ctx) ruleGlobalState(rule string) {
 			return true
 		})
 	}
+	// a package-level map, slice, pointer or channel handed out by reference (stored into a field or variable, sliced,
+	// returned, given to a function that writes through its parameter) is shared by everything that receives it
+	for v, ps := range c.globalAliases() {
+		problems[v] = append(problems[v], ps...)
+	}
 	for _, g := range globals {
 		key := strings.TrimPrefix(g.v.Pkg().Path(), "github.com/jsightapi/jsight-api-core/") + "." + g.v.Name()
 		tname := namedType(g.v.Type())
@@ -809,4 +814,245 @@ func (c *Ctx) onceOnlyFuncs() map[*types.Func]bool {
 		}
 	}
 	return out
+}
+
+// globalAliases: uses of a package-level variable of reference type (map, slice, pointer, channel) that let the
+// reference escape. Allowed in place: g[k] as a value, range g, len/cap, comparison, g.method(...), g.field as a value;
+// as an argument only when the callee (library function) uses its parameter in these ways only (two levels), or is a
+// read-only standard function.
+func (c *Ctx) globalAliases() map[*types.Var][]string {
+	out := map[*types.Var][]string{}
+	refType := func(t types.Type) bool {
+		switch t.Underlying().(type) {
+		case *types.Map, *types.Slice, *types.Pointer, *types.Chan:
+			return true
+		}
+		return false
+	}
+	// readOnlyUse classifies the use of identifier id (naming variable v) with the given ancestors
+	var paramReadOnly func(g *types.Func, i int, depth int) bool
+	var useEscapes func(f *Fn, id *ast.Ident, stack []ast.Node, depth int) string
+	useEscapes = func(f *Fn, id *ast.Ident, stack []ast.Node, depth int) string {
+		pro := func(g *types.Func, i int, d int) bool { return paramReadOnly(g, i, d) }
+		if i := len(stack) - 1; i >= 0 {
+			if p, ok := stack[i].(*ast.SelectorExpr); ok && p.Sel == id {
+				// qualified name pkg.g: the selector expression is the value
+				return useEscapesNode(c, f, p, stack[:i], depth, pro)
+			}
+		}
+		return useEscapesNode(c, f, id, stack, depth, pro)
+	}
+	paramReadOnly = func(g *types.Func, idx int, depth int) bool {
+		if g.Pkg() == nil {
+			return false
+		}
+		if !c.P.IsLibPkg(g.Pkg()) {
+			full := g.Pkg().Path() + "." + g.Name()
+			switch g.Pkg().Path() {
+			case "strings", "fmt", "strconv", "bytes", "errors", "unicode", "unicode/utf8":
+				return true
+			}
+			return full == "sort.SearchStrings" || full == "slices.Contains" || full == "slices.Index"
+		}
+		fn := c.fnOf(g)
+		if fn == nil || depth > 2 {
+			return false
+		}
+		// the idx-th parameter object
+		var pobj types.Object
+		k := 0
+		for _, fl := range fn.Decl.Type.Params.List {
+			for _, nm := range fl.Names {
+				if k == idx {
+					pobj = fn.Pkg.TypesInfo.Defs[nm]
+				}
+				k++
+			}
+			if len(fl.Names) == 0 {
+				k++
+			}
+		}
+		if pobj == nil {
+			return false
+		}
+		ok := true
+		inspectWithStack(fn.Decl.Body, func(n ast.Node, stack []ast.Node) bool {
+			if id, isId := n.(*ast.Ident); isId && fn.Pkg.TypesInfo.Uses[id] == pobj {
+				if useEscapes(fn, id, stack, depth+1) != "" || writtenThrough(fn.Pkg, id, stack) {
+					ok = false
+				}
+			}
+			return ok
+		})
+		return ok
+	}
+	for _, f := range c.libFns() {
+		pk := f.Pkg
+		inspectWithStack(f.Decl.Body, func(n ast.Node, stack []ast.Node) bool {
+			id, ok := n.(*ast.Ident)
+			if !ok {
+				return true
+			}
+			v, ok := pk.TypesInfo.Uses[id].(*types.Var)
+			if !ok || v.Pkg() == nil || v.Parent() != v.Pkg().Scope() || !c.P.IsLibPkg(v.Pkg()) || !refType(v.Type()) {
+				return true
+			}
+			if why := useEscapes(f, id, stack, 0); why != "" {
+				out[v] = append(out[v], why+" in "+f.Name())
+			}
+			return true
+		})
+	}
+	return out
+}
+
+// useEscapesNode classifies the expression `child` (a reference-typed value) by the node that consumes it.
+func useEscapesNode(c *Ctx, f *Fn, child ast.Node, stack []ast.Node, depth int, paramReadOnly func(g *types.Func, i int, depth int) bool) string {
+	pk := f.Pkg
+	i := len(stack) - 1
+	for i >= 0 {
+		if p, ok := stack[i].(*ast.ParenExpr); ok {
+			child = p
+			i--
+			continue
+		}
+		break
+	}
+	if i < 0 {
+		return ""
+	}
+	ce, _ := child.(ast.Expr)
+	switch p := stack[i].(type) {
+	case *ast.IndexExpr:
+		if p.X == ce {
+			return "" // element access; a store into it is judged by the assignment clause / writtenThrough
+		}
+		return ""
+	case *ast.RangeStmt:
+		if p.X == ce {
+			return ""
+		}
+	case *ast.BinaryExpr:
+		return ""
+	case *ast.SelectorExpr:
+		if p.X == ce {
+			return ""
+		}
+	case *ast.StarExpr:
+		return ""
+	case *ast.SliceExpr:
+		if p.X == ce {
+			return "is resliced (the result shares its backing array)"
+		}
+		return ""
+	case *ast.CallExpr:
+		if p.Fun == ce {
+			return ""
+		}
+		if id, ok := p.Fun.(*ast.Ident); ok {
+			if _, isB := pk.TypesInfo.Uses[id].(*types.Builtin); isB {
+				switch id.Name {
+				case "len", "cap", "delete", "clear", "copy", "print", "println":
+					return "" // delete/clear are writes judged elsewhere; copy(dst, g) reads g
+				case "append":
+					if len(p.Args) > 0 && p.Args[0] == ce {
+						return "is the first operand of append (the result may share its backing array)"
+					}
+					return ""
+				}
+			}
+		}
+		if tv, ok := pk.TypesInfo.Types[p.Fun]; ok && tv.IsType() {
+			return "is converted and handed on"
+		}
+		cal := callee(pk, p)
+		if cal == nil {
+			return "is given to a function value"
+		}
+		for k, a := range p.Args {
+			if a == ce {
+				if sig, ok := cal.Type().(*types.Signature); ok && sig.Variadic() && k >= sig.Params().Len()-1 {
+					if cal.Pkg() != nil && !c.P.IsLibPkg(cal.Pkg()) && paramReadOnly(cal, k, depth) {
+						return ""
+					}
+					return "is given to the variadic parameter of " + cal.Name()
+				}
+				if paramReadOnly(cal, k, depth) {
+					return ""
+				}
+				return "is given to " + cal.Name() + ", which may keep or write through its parameter"
+			}
+		}
+		return ""
+	case *ast.AssignStmt:
+		for _, rh := range p.Rhs {
+			if rh == ce {
+				return "is assigned to another variable or field (alias)"
+			}
+		}
+		return ""
+	case *ast.ValueSpec:
+		return "is assigned to another variable (alias)"
+	case *ast.KeyValueExpr:
+		if p.Value == ce {
+			return "is stored into a composite literal (alias)"
+		}
+	case *ast.CompositeLit:
+		return "is stored into a composite literal (alias)"
+	case *ast.ReturnStmt:
+		return "is returned (alias)"
+	case *ast.UnaryExpr:
+		return ""
+	case *ast.SendStmt:
+		return "is sent on a channel"
+	}
+	return ""
+}
+
+// writtenThrough: the identifier is the base of an element/field/pointer store (x[i] = .., x.f = .., *x = .., x[i]++)
+// or is deleted from / cleared.
+func writtenThrough(pk *packages.Package, id *ast.Ident, stack []ast.Node) bool {
+	var child ast.Node = id
+	for i := len(stack) - 1; i >= 0; i-- {
+		switch p := stack[i].(type) {
+		case *ast.ParenExpr:
+			child = p
+			continue
+		case *ast.IndexExpr:
+			if p.X == child {
+				child = p
+				continue
+			}
+			return false
+		case *ast.SelectorExpr:
+			if p.X == child {
+				child = p
+				continue
+			}
+			return false
+		case *ast.StarExpr:
+			child = p
+			continue
+		case *ast.AssignStmt:
+			if child == ast.Node(id) {
+				return false // x = ...: the local itself is reassigned, nothing is written through it
+			}
+			for _, l := range p.Lhs {
+				if l == child {
+					return true
+				}
+			}
+			return false
+		case *ast.IncDecStmt:
+			return child != ast.Node(id)
+		case *ast.CallExpr:
+			if fid, ok := p.Fun.(*ast.Ident); ok && (fid.Name == "delete" || fid.Name == "clear") && len(p.Args) > 0 && p.Args[0] == child {
+				return true
+			}
+			return false
+		default:
+			return false
+		}
+	}
+	return false
 }
